@@ -39,10 +39,10 @@ def main():
         for name in names:
             d = os.path.join(VERIF, "seeded", name)
             meta = json.load(open(os.path.join(d, "meta.json")))
-            rc, o = sh("git apply %s || patch -p1 --fuzz=3 < %s" % (os.path.join(d, "patch.diff"), os.path.join(d, "patch.diff")), cwd=WT)
-            if rc != 0 and os.path.exists(os.path.join(d, "patch.rebased.diff")):
-                sh("git checkout -- . && git clean -fdq tests src", cwd=WT)
+            if os.path.exists(os.path.join(d, "patch.rebased.diff")):
                 rc, o = sh("git apply %s" % os.path.join(d, "patch.rebased.diff"), cwd=WT)
+            else:
+                rc, o = sh("git apply %s || patch -p1 --fuzz=3 < %s" % (os.path.join(d, "patch.diff"), os.path.join(d, "patch.diff")), cwd=WT)
             if rc != 0:
                 print(name, "PATCH DOES NOT APPLY")
                 worst = 2
